@@ -213,7 +213,7 @@ fn gen_other(t: &mut Tape, pool: &Pool, p: &IlParams, max_blocks: usize, allow_i
             exit = None;
         }
     }
-    FnSpec { address: 0x4000, blocks, edges, entry, exit, gaps: vec![] }
+    FnSpec { address: 0x4000, blocks, edges, entry, exit, gaps: vec![], index: None }
 }
 
 fn gen_ref_head(t: &mut Tape) -> Ref {
